@@ -82,7 +82,7 @@ fn refine_tag(mc: &ModelCase) -> String {
 pub fn run(cfg: Config) -> i32 {
     use rayon::prelude::*;
     let mut m = Monitor::new(cfg.clone());
-    let (reps, nts) = cfg.tier.pick((15, 10), (400, 30));
+    let (reps, nts) = cfg.tier.pick((15, 10), (1200, 30));
     let col = Collections::load();
     let mut jobs = Vec::new();
     for (fi, fam) in FAMILIES.iter().enumerate() {
